@@ -700,7 +700,7 @@ func runOneChild(p *Prop, tier string, seed int64, b, nb, tmoSec int, runDir str
 	defer lf.Close()
 	cmd := exec.Command(os.Args[0], "-child", "-prop", p.ID, "-tier", tier, "-seed", fmt.Sprint(seed),
 		"-batch", fmt.Sprint(b), "-nbatch", fmt.Sprint(nb), "-out", outf)
-	cmd.Env = append(os.Environ(), "GORACE=halt_on_error=0 log_path="+filepath.Join(runDir, fmt.Sprintf("race.%d", b)))
+	cmd.Env = append(os.Environ(), "GORACE=halt_on_error=0 exitcode=0 log_path="+filepath.Join(runDir, fmt.Sprintf("race.%d", b)))
 	cmd.Env = append(cmd.Env, p.Env...)
 	cmd.Stdout = lf
 	cmd.Stderr = lf
